@@ -240,7 +240,7 @@ def rule_no_self_mutation(ctx, repo):
         bad += [n for n in walk_no_nested(fi.node) if isinstance(n, ast.Call) and norm(n.func) in ('_ssl.EC_KEY_set_conv_form', '_ssl.EC_KEY_set_private_key', '_ssl.EC_KEY_set_public_key')
                 and n.args and norm(n.args[0]) == 'self.k']
         r.check(not bad, name, common.site_of(fi, bad[0]) if bad else fi.site, 'does not reconfigure self',
-                'CECKey.%s calls `%s` on the key itself: after the call the key derives a different public-key encoding (an uncompressed key answers with the 33-byte form)' % (name, norm(bad[0])[:60] if bad else ''))
+                'CECKey.%s calls `%s` on the key itself: after the call the key derives a different public-key encoding (an uncompressed key answers with the 33-byte form)' % (name, norm(bad[0])[:60] if bad else ''), sure=True)
 
 
 def rule_wif(ctx, repo):
